@@ -35,7 +35,7 @@ DEFAULT = {"label": "plain", "value": "frac", "standard_error": "nan", "minimum"
 
 LABELS_ALL = ["plain", "nested", "numlike", "numeric", "kwbool", "kwna"]
 VALUES_ALL = ["zero", "one", "int", "frac", "frac17", "huge", "neghuge", "tiny", "negtiny", "inf", "neginf"]
-STDERR_ALL = ["nan", "short", "frac17", "inf"]
+STDERR_ALL = ["nan", "short", "frac17", "inf", "vanishing"]
 
 INVARIANTS = ["TypeOK", "RoundTrip", "OrderPreserved", "ExprNotVaried"]
 PROPERTIES = ["Idempotent"]
@@ -94,7 +94,7 @@ VALUE_POOL = {
     "inf": [float("inf")],           # an infinite value or standard error is a float like any other (only infinite BOUNDS are written as empty cells)
     "neginf": [float("-inf")],
 }
-STDERR_POOL = {"nan": [float("nan")], "short": [0.5, 0.01, 2.5e-3, 12.0], "frac17": FRAC17, "inf": [float("inf")]}
+STDERR_POOL = {"nan": [float("nan")], "short": [0.5, 0.01, 2.5e-3, 12.0], "frac17": FRAC17, "inf": [float("inf")], "vanishing": [0.0, 5e-19, 1e-300]}     # a standard error of zero or far below one is a number, not "not available"
 MIN_POOL = [0, 0.0, -1.5, -1000.0, 0.001, -1e308]     # the first one is an int on purpose (DESIGN §7 harness lesson)
 MAX_POOL = [10, 1.0, 1e6, 1000.5, 1e308]
 EXPR_FORMS = ["${x}", "2 * ${x}", "${x} + 1", "${x} / 3", "2.5", "2"]      # the last two: constant expressions that look like numbers (they are text all the same)
